@@ -580,7 +580,8 @@ impl Property for C18 {
                 o.class("in_toto_run");
                 let (cmd, want_out, want_err) = run_script(plan);
                 let cmd_refs: Vec<&str> = cmd.iter().map(|s| s.as_str()).collect();
-                let lib = guarded(|| in_toto_run("stepname", if plan.run_dir_dot { Some(".") } else { None }, &arg_refs, &arg_refs, &cmd_refs, None, alg_list.as_deref(), ls_refs.as_deref()));
+                let signer = if plan.exit % 2 == 0 { Some(crate::gen::keys::private(&crate::gen::keys::KeySpec::Ed { seed: 33, pkcs8: true })) } else { None };
+                let lib = guarded(|| in_toto_run("stepname", if plan.run_dir_dot { Some(".") } else { None }, &arg_refs, &arg_refs, &cmd_refs, signer.as_deref(), alg_list.as_deref(), ls_refs.as_deref()));
                 let after = reference(&case, &args, &lstrip, &spec.algs, &mut feat);
                 let changed = matches!((&before.strict, &after.strict), (Ok(a), Ok(b)) if a != b);
                 if changed {
@@ -616,6 +617,19 @@ impl Property for C18 {
                             }
                             if l.name != "stepname" {
                                 o.fail("C18/run/name", l.name.clone(), "stepname");
+                            }
+                            match &signer {
+                                Some(sk) => {
+                                    o.class("run-signed");
+                                    if block.verify(1, [sk.public()]).is_err() {
+                                        o.fail("C18/run/signature-of-returned-link-does-not-verify", "verify(1,[signer]) failed", "Ok");
+                                    }
+                                }
+                                None => {
+                                    if !block.signatures.is_empty() {
+                                        o.fail("C18/run/unsigned-link-carries-signatures", format!("{} signatures", block.signatures.len()), "none");
+                                    }
+                                }
                             }
                         }
                     }
